@@ -7,6 +7,29 @@ CORE = "frost_core::"
 RP = CORE + "keys::repairable::"
 
 
+def repair_draw_count(ctx):
+    P = ctx.prog
+    f = ctx.anchor(RP + "repair_share_part1")
+    if f:
+        v = FnView.get(P, f)
+        # draw count and wiring
+        good = False
+        for (b, k, t) in ret_writes(f):
+            if k == "call":
+                a = v.call_args(b)
+                ci = callee_of(t)
+                if ci.get("name") != "compute_last_random_value":
+                    continue
+                draws = a[2]
+                good = (is_call(a[0], name="collect") and mentions(a[0], arg(1)) and a[1] == ("arg", 2)
+                        and a[3] == ("arg", 4) and is_call(draws, name="generate_coefficients")
+                        and draws[2][0] == ("bin", "Sub", draws[2][0][2], ("const", "usize", 1))
+                        and length(arg(1))(draws[2][0][2]) and draws[2][1] == ("arg", 3))
+        ctx.check(good, "DRAW", f.key, "draws==|helpers|-1",
+                  "repair_share_part1 must draw exactly helpers.len()-1 values from the caller's rng and pass (helper "
+                  "set, own key package, those values, repaired identifier) on", f.loc)
+
+
 def run(ctx):
     ctx.decided = ("the three refusals of repair_share_part1 (fewer helpers than the helper's threshold, at full width; "
                    "caller not among the helpers; duplicate helpers) gate the draws; exactly |helpers|-1 blinding values "
@@ -48,22 +71,9 @@ def run(ctx):
         refusal(ctx, f, "SEP", "G39:duplicate-helpers",
                 [("set.len!=len", cmp_fact("eq", length(lambda t: mentions(t, call("collect")) and mentions(t, arg(1))),
                                            length(arg(1)), False))], sinks)
-        # draw count and wiring
-        good = False
-        for (b, k, t) in ret_writes(f):
-            if k == "call":
-                a = v.call_args(b)
-                ci = callee_of(t)
-                if ci.get("name") != "compute_last_random_value":
-                    continue
-                draws = a[2]
-                good = (is_call(a[0], name="collect") and mentions(a[0], arg(1)) and a[1] == ("arg", 2)
-                        and a[3] == ("arg", 4) and is_call(draws, name="generate_coefficients")
-                        and draws[2][0] == ("bin", "Sub", draws[2][0][2], ("const", "usize", 1))
-                        and length(arg(1))(draws[2][0][2]) and draws[2][1] == ("arg", 3))
-        ctx.check(good, "DRAW", f.key, "draws==|helpers|-1",
-                  "repair_share_part1 must draw exactly helpers.len()-1 values from the caller's rng and pass (helper "
-                  "set, own key package, those values, repaired identifier) on", f.loc)
+    repair_draw_count(ctx)
+    from .c01 import lagrange_kernel
+    lagrange_kernel(ctx)
     f = ctx.anchor(RP + "compute_last_random_value")
     if f:
         v = FnView.get(P, f)
